@@ -105,21 +105,21 @@ Proof.
   intros outs rs per_out lft H. destruct (split_sats_spec _ _ _ _ H) as [A B]. split; [exact A | exact B].
 Qed.
 
-(* (9) THE property, at the sat level, for whole chains.  With the sat index on and inscriptions indexed from
-   height 0 (regtest, testnet4), for every chain in which the first transaction of each block is a coinbase,
+(* (9) THE property, at the sat level, for whole chains.  With the sat index on (any first inscription height,
+   any jubilee), for every chain in which the first transaction of each block is a coinbase,
    no other transaction has a null input, inputs name real outputs (txid not all-zero) and no txid is all-zero:
    whenever indexing succeeds, every inscription that has a sat and is listed by an output - a real one or the
    lost-sats pseudo-output - at offset off has, at offset off of that output's sat ranges, exactly its sat
    (calc_sat_in walks the ranges like Index::find and Index::list do).  Together with C02 (sat ranges of
    different outputs are disjoint) this is Index::find(sat) = reported satpoint. *)
 Theorem C03_location_is_sat_location : forall cfg c st,
-  c_sats cfg = true -> c_first cfg = 0 -> Forall block_ok3 c ->
+  c_sats cfg = true -> Forall block_ok3 c ->
   index_chain cfg 0 c empty_state = Ok st ->
   forall op u, tget pair_eqb op (s_utxo st) = Some u -> op <> unbound_op ->
   forall s off, In (s, off) (u_insc u) ->
   forall e n, tget N.eqb s (s_entries st) = Some e -> i_sat e = Some n ->
     calc_sat_in (u_ranges u) 0 off = Ok n.
-Proof. intros cfg c st HS HF. exact (sat_invariant cfg HS HF c st). Qed.
+Proof. intros cfg c st HS. exact (sat_invariant cfg HS c st). Qed.
 
 (* non-vacuity: a reveal whose second envelope points into the second output, then a transfer that swaps the
    two outputs into one; both inscriptions still sit on their sats *)
